@@ -88,3 +88,108 @@ package mcp
 //@   ensures[C16 prompts-capability-iff-registered] initParamsOK(req) ==> ((result.(InitializeResult).Capabilities.Prompts != nil) <==> (m.promptManager != nil && len(m.promptManager.prompts) > 0))
 //@   ensures[C16 resources-capability-iff-registered] initParamsOK(req) ==> ((result.(InitializeResult).Capabilities.Resources != nil) <==> (m.resourceManager != nil && len(m.resourceManager.resourcesOrder) > 0))
 //@   ensures[C16,C03 bad-params-are-invalid-params] !initParamsOK(req) ==> istype(result, *JSONRPCError) && result.(*JSONRPCError).Error.Code == ErrCodeInvalidParams && result.(*JSONRPCError).ID == req.ID
+
+// ---------------------------------------------------------------------------
+// client.go — C16 (client state machine).  netops counts operations handed to
+// the transport: "without touching the network" is netops unchanged.
+
+//@ ghost netops int
+//@
+//@ type Client
+//@   private[C16] initialized, state writers Initialize, Close, setState
+//@   invariant[C16 initialized-iff-state-initialized] self.initialized <==> self.state == StateInitialized
+//@
+//@ func transport.sendRequest
+//@   modifies *
+//@   ensures netops == old(netops) + 1
+//@ func transport.sendNotification
+//@   modifies *
+//@   ensures netops == old(netops) + 1
+//@ func transport.sendResponse
+//@   modifies *
+//@   ensures netops == old(netops) + 1
+//@ func httpTransport.terminateSession
+//@   modifies *
+//@   ensures netops == old(netops) + 1
+//@ func transport.close
+//@   modifies *
+//@   ensures netops == old(netops)
+//@
+//@ func Client.Initialize
+//@   ensures[C16 second-handshake-refused-without-network] old(c.initialized) ==> ret1 == errors.ErrAlreadyInitialized && ret == nil && netops == old(netops) && c.initialized
+//@   ensures[C16 failed-handshake-leaves-client-uninitialized] !old(c.initialized) && ret1 != nil ==> !c.initialized && c.state == StateDisconnected
+//@   ensures[C16 successful-handshake-initializes] ret1 == nil ==> c.initialized && c.state == StateInitialized
+//@ func Client.Close
+//@   ensures[C16 uninitialized-after-close] c.transport != nil ==> !c.initialized && c.state == StateDisconnected
+//@ func Client.ListTools
+//@   ensures[C16 no-operation-before-handshake] !old(c.initialized) ==> ret1 != nil && ret == nil && netops == old(netops)
+//@ func Client.CallTool
+//@   ensures[C16 no-operation-before-handshake] !old(c.initialized) ==> ret1 != nil && ret == nil && netops == old(netops)
+//@ func Client.ListPrompts
+//@   ensures[C16 no-operation-before-handshake] !old(c.initialized) ==> ret1 != nil && ret == nil && netops == old(netops)
+//@ func Client.GetPrompt
+//@   ensures[C16 no-operation-before-handshake] !old(c.initialized) ==> ret1 != nil && ret == nil && netops == old(netops)
+//@ func Client.ListResources
+//@   ensures[C16 no-operation-before-handshake] !old(c.initialized) ==> ret1 != nil && ret == nil && netops == old(netops)
+//@ func Client.ReadResource
+//@   ensures[C16 no-operation-before-handshake] !old(c.initialized) ==> ret1 != nil && ret == nil && netops == old(netops)
+//@ func Client.SendRootsListChangedNotification
+//@   ensures[C16 no-operation-before-handshake] !old(c.initialized) ==> ret != nil && netops == old(netops)
+//@ func Client.setState
+//@   helper
+//@   inline
+//@ func Client.GetState
+//@   pure
+//@   ensures[C16 reports-the-state] result == c.state
+
+// ---------------------------------------------------------------------------
+// stdio_client.go — C16 (same state machine over atomic.Bool / atomic.Value)
+
+//@ pred stdioStateIs(c *StdioClient, s State) = istype(c.state, State) && c.state.(State) == s
+//@
+//@ type StdioClient
+//@   private[C16] initialized, state writers Initialize, Close, setState
+//@   invariant[C16 initialized-iff-state-initialized] self.initialized <==> stdioStateIs(self, StateInitialized)
+//@   invariant[C16 state-cell-holds-a-state] isnil(self.state) || istype(self.state, State)
+//@
+//@ func stdioClientTransport.sendRequest
+//@   trusted
+//@   modifies *
+//@   ensures netops == old(netops) + 1
+//@ func stdioClientTransport.sendNotification
+//@   trusted
+//@   modifies *
+//@   ensures netops == old(netops) + 1
+//@ func stdioClientTransport.close
+//@   trusted
+//@   modifies *
+//@   ensures netops == old(netops)
+//@
+//@ func StdioClient.setState
+//@   helper
+//@   inline
+//@ func StdioClient.Initialize
+//@   ensures[C16 second-handshake-refused-without-network] old(c.initialized) ==> ret1 != nil && ret == nil && netops == old(netops) && c.initialized
+//@   ensures[C16 failed-handshake-leaves-client-uninitialized] !old(c.initialized) && ret1 != nil ==> !c.initialized && stdioStateIs(c, StateDisconnected)
+//@   ensures[C16 successful-handshake-initializes] ret1 == nil ==> c.initialized && stdioStateIs(c, StateInitialized)
+//@ func StdioClient.Close
+//@   ensures[C16 uninitialized-after-close] c.transport != nil ==> !c.initialized && stdioStateIs(c, StateDisconnected)
+//@ func StdioClient.GetState
+//@   pure
+//@   ensures[C16 reports-the-state] istype(c.state, State) ==> result == c.state.(State)
+//@   ensures[C16 disconnected-when-never-set] isnil(c.state) ==> result == StateDisconnected
+//@   sweep[C16] typeassert
+//@ func StdioClient.ListTools
+//@   ensures[C16 no-operation-before-handshake] !old(c.initialized) ==> ret1 != nil && ret == nil && netops == old(netops)
+//@ func StdioClient.CallTool
+//@   ensures[C16 no-operation-before-handshake] !old(c.initialized) ==> ret1 != nil && ret == nil && netops == old(netops)
+//@ func StdioClient.ListPrompts
+//@   ensures[C16 no-operation-before-handshake] !old(c.initialized) ==> ret1 != nil && ret == nil && netops == old(netops)
+//@ func StdioClient.GetPrompt
+//@   ensures[C16 no-operation-before-handshake] !old(c.initialized) ==> ret1 != nil && ret == nil && netops == old(netops)
+//@ func StdioClient.ListResources
+//@   ensures[C16 no-operation-before-handshake] !old(c.initialized) ==> ret1 != nil && ret == nil && netops == old(netops)
+//@ func StdioClient.ReadResource
+//@   ensures[C16 no-operation-before-handshake] !old(c.initialized) ==> ret1 != nil && ret == nil && netops == old(netops)
+//@ func StdioClient.SendRootsListChangedNotification
+//@   ensures[C16 no-operation-before-handshake] !old(c.initialized) ==> ret != nil && netops == old(netops)
